@@ -40,11 +40,11 @@ def relevant(pid, case, d):
     if pid == "C11":
         return op == "Get" and k in ("res", "out")
     gen = sum(1 for o in case["path"] if o.get("op") in ("Reload", "LoadBytes"))     # how many loads precede this call (the object came from a file)
+    bytes_bad = k == "bytes" and d.get("verdict") != "equivalent"     # layout differences that decode to the saved content are drift
     if pid == "C02":
         return op == "LoadBytes" and k in ("post", "out")
     if pid == "C12":
         return (op == "LoadBytes" and k in ("post", "out")) or (op == "Reload" and (k in ("post", "out", "resave") or bytes_bad))
-    bytes_bad = k == "bytes" and d.get("verdict") != "equivalent"     # layout differences that decode to the saved content are drift
     if pid == "C01":
         return op == "Reload" and gen == 0 and (k in ("post", "out") or bytes_bad)
     if pid == "C03":
@@ -257,51 +257,70 @@ def trace_leg(pid, ez, tier):
     return cov, nviol
 
 report_replay.ez = None
-SHAPE_ASSUME = ["rates are exact small integers (table in C3DBytes.tla), so integer arithmetic in TLC equals float arithmetic in the code",
+SHAPE_ASSUME = ["rates are float bit patterns: small integers, and in MC_Rates 0.25, 0.5, 100.005, 119.88, 120000/1001; the specification models the single-precision "
+                "operations the code performs on them (truncation, x 10000 comparison key, IEEE division with round-to-nearest-even) in integer arithmetic",
                 "TLC explores the bounded instance completely; larger sizes rest on data independence (values are opaque 4-byte tuples)"]
 
 def shape_consts(tier):
     if tier == "quick":
         return {"NP": 2, "NA": 1, "MaxFrames": 2, "MaxPts": 2, "MaxCh": 1, "IdxSlack": 2}
-    return {"NP": 3, "NA": 1, "MaxFrames": 3, "MaxPts": 3, "MaxCh": 1, "IdxSlack": 2}
+    return {"NP": 2, "NA": 1, "MaxFrames": 3, "MaxPts": 2, "MaxCh": 1, "IdxSlack": 2}      # 334 433 states, 12.4 M transitions (NP = 3 / MaxPts = 3 did not finish in 75 min)
 
 def run_shape(pid, tier, t0):
     ez = report_replay.ez = vlib.build("plain")
-    # quick: TLC explores and checks every transition, a random quarter of them is replayed (each with its whole path); thorough: all
-    res = vlib.replay_slice("MC_Shape.tla", "MC_Shape.cfg", shape_consts(tier), ez, tag="shape", timeout=9000, sample_k=8 if tier == "quick" else 1)
+    # TLC explores and checks every transition in both tiers; one in 8 (quick) / one in 3 (thorough) is replayed, each with its whole path
+    res = vlib.replay_slice("MC_Shape.tla", "MC_Shape.cfg", shape_consts(tier), ez, tag="shape", timeout=9000, sample_k=8 if tier == "quick" else 3)
     results = [("MC_Shape", res)]
+    if pid in ("C05", "C07", "C10"):     # the rate comparisons; POINT:FRAMES set by hand and columns of the wrong length: rates below 1 Hz, rates 0.005 Hz apart, NTSC rates, sub-frame ratios 0 / 1 / 2 / 400
+        results.append(("MC_Rates", vlib.replay_slice("MC_Rates.tla", "MC_Rates.cfg", {"NP": 1, "NA": 1, "Quick": "TRUE" if tier == "quick" else "FALSE", "MaxFrames": 2, "MaxPts": 1, "MaxCh": 1, "IdxSlack": 1},
+                                                      ez, tag="rates", timeout=3000)))
+    # objects loaded from files of other writers ("Optotrak": ANALOG group without parameters; no POINT:DESCRIPTIONS; first frame number 5;
+    # fewer labels than points; analog-only), then frames / columns / parameters added, saved and reloaded
+    results.append(("MC_Modify", vlib.replay_slice("MC_Modify.tla", "MC_Modify.cfg", {"Quick": "TRUE" if tier == "quick" else "FALSE", "WithReload": "TRUE" if pid == "C10" else "FALSE"}, ez, tag="modify", timeout=6000)))
+    if pid == "C05":      # one caller frame stored several times (append, replace, extend), mutated by the caller, then columns of both kinds
+        nm, cs, sk = frames_configs(tier)[4]
+        results.append((nm, vlib.replay_slice("MC_Frames.tla", "MC_Frames.cfg", cs, ez, tag="frames", timeout=6000, sample_k=sk)))
     if pid == "C10":      # refused column adders over three frames with gaps (index up to count+2) come from the frame-centred slice
         results.append(("MC_Frames/columns", vlib.replay_slice("MC_Frames.tla", "MC_Frames.cfg", frames_consts("quick"), ez, tag="frames", timeout=9000, sample_k=6 if tier == "quick" else 2)))
         # refused parameter calls: unnamed, untyped (existing / new group), refused typed sets after accepted ones
-        results.append(("MC_Params", vlib.replay_slice("MC_Params.tla", "MC_Params.cfg", {"MaxVals": 2, "Deep": "FALSE"} if tier == "quick" else {"MaxVals": 3, "Deep": "TRUE"}, ez, tag="params", timeout=9000, sample_k=8 if tier == "quick" else 2)))
+        results.append(("MC_Params", vlib.replay_slice("MC_Params.tla", "MC_Params.cfg", {"MaxVals": 2, "Deep": "FALSE"} if tier == "quick" else {"MaxVals": 3, "Deep": "TRUE"}, ez, tag="params", timeout=9000, sample_k=8 if tier == "quick" else 24)))
     return report_replay(pid, results, tier, t0, assumptions=SHAPE_ASSUME, trace=True)
 
 def frames_configs(tier):
     """(callers) one caller frame object reused / mutated / re-submitted, two explicit payloads, in-place edits;
     (gaps) in-place edits and point columns over data sets with up to two empty frames created by one extension (index up to count+2);
-    (columns) point and channel columns (two channel names) over the same data sets, without in-place edits"""
+    (columns) point and channel columns (two channel names) over the same data sets, without in-place edits;
+    (alias) frames of the object itself handed back to it; (shared) one caller frame stored several times, then point and channel
+    columns added in every order (whatever the stored frames share with each other or with the caller must not show)"""
     if tier == "quick":
-        return [("MC_Frames/callers", {"NTags": 2, "NCallers": 1, "NChan": 1, "MaxFrames": 2, "IdxSlack": 2, "WithEdits": "TRUE"}, 8),
+        return [("MC_Frames/callers", {"NTags": 2, "NCallers": 1, "NChan": 1, "MaxFrames": 2, "IdxSlack": 2, "WithEdits": "TRUE"}, 16),
                 ("MC_Frames/gaps", {"NTags": 0, "NCallers": 0, "NChan": 1, "MaxFrames": 3, "IdxSlack": 3, "WithEdits": "TRUE"}, 5),
                 ("MC_Frames/columns", {"NTags": 0, "NCallers": 0, "NChan": 2, "MaxFrames": 3, "IdxSlack": 3, "WithEdits": "FALSE"}, 6),
-                ("MC_Frames/alias", {"NTags": 0, "NCallers": 0, "NChan": 1, "MaxFrames": 3, "IdxSlack": 3, "WithEdits": "FALSE", "WithAlias": "TRUE"}, 8)]
+                ("MC_Frames/alias", {"NTags": 0, "NCallers": 0, "NChan": 1, "MaxFrames": 3, "IdxSlack": 3, "WithEdits": "FALSE", "WithAlias": "TRUE"}, 8),
+                ("MC_Frames/shared", {"NTags": 1, "NCallers": 1, "NChan": 2, "MaxFrames": 2, "IdxSlack": 1, "WithEdits": "FALSE"}, 4)]
     return [("MC_Frames/callers", {"NTags": 2, "NCallers": 1, "NChan": 1, "MaxFrames": 3, "IdxSlack": 2, "WithEdits": "TRUE"}, 4),
             ("MC_Frames/gaps", {"NTags": 0, "NCallers": 0, "NChan": 1, "MaxFrames": 3, "IdxSlack": 3, "WithEdits": "TRUE"}, 1),
             ("MC_Frames/columns", {"NTags": 0, "NCallers": 0, "NChan": 2, "MaxFrames": 3, "IdxSlack": 3, "WithEdits": "FALSE"}, 1),
-            ("MC_Frames/alias", {"NTags": 0, "NCallers": 0, "NChan": 1, "MaxFrames": 3, "IdxSlack": 3, "WithEdits": "FALSE", "WithAlias": "TRUE"}, 1)]
+            ("MC_Frames/alias", {"NTags": 0, "NCallers": 0, "NChan": 1, "MaxFrames": 3, "IdxSlack": 3, "WithEdits": "FALSE", "WithAlias": "TRUE"}, 1),
+            ("MC_Frames/shared", {"NTags": 1, "NCallers": 1, "NChan": 2, "MaxFrames": 2, "IdxSlack": 2, "WithEdits": "TRUE"}, 1)]
 def frames_consts(tier):
     return frames_configs("quick")[2][1]
 
 def run_frames(pid, tier, t0):
     ez = report_replay.ez = vlib.build("plain")
     results = [(name, vlib.replay_slice("MC_Frames.tla", "MC_Frames.cfg", consts, ez, tag="frames", timeout=9000, sample_k=sk)) for name, consts, sk in frames_configs(tier)]
+    # frames that came from a file (what the reader lets them share is invisible until a frame or a column is added)
+    results.append(("MC_Modify", vlib.replay_slice("MC_Modify.tla", "MC_Modify.cfg", {"Quick": "TRUE" if tier == "quick" else "FALSE", "WithReload": "FALSE"}, ez, tag="modify", timeout=6000)))
     return report_replay(pid, results, tier, t0, assumptions=SHAPE_ASSUME, trace=(pid == "C06"))
 
 def run_params(pid, tier, t0):
     ez = vlib.build("plain")
     consts = {"MaxVals": 2, "Deep": "FALSE"} if tier == "quick" else {"MaxVals": 3, "Deep": "TRUE"}
-    res = vlib.replay_slice("MC_Params.tla", "MC_Params.cfg", consts, ez, tag="params", timeout=9000, sample_k=6 if tier == "quick" else 1)
-    return report_replay(pid, [("MC_Params", res)], tier, t0,
+    # (thorough: 378 602 states, 85 M transitions explored and checked by TLC, one in 16 replayed)
+    res = vlib.replay_slice("MC_Params.tla", "MC_Params.cfg", consts, ez, tag="params", timeout=9000, sample_k=6 if tier == "quick" else 16)
+    # names and groups that differ by case only (distinct in memory), over a small alphabet of sets
+    res2 = vlib.replay_slice("MC_Params.tla", "MC_Params.cfg", {"MaxVals": 1, "Deep": "FALSE", "Variant": '"names"'}, ez, tag="pnames", timeout=9000, sample_k=4 if tier == "quick" else 1)
+    return report_replay(pid, [("MC_Params", res), ("MC_Params/names", res2)], tier, t0,
                          assumptions=["parameter alphabet: int/float/string, 0..%s values, dimension arguments with up to %s entries" % (consts["MaxVals"], 8 if tier != "quick" else 3)])
 
 def run_lookup(pid, tier, t0):
@@ -315,6 +334,10 @@ def run_lookup(pid, tier, t0):
 def io_consts(tier):
     return {"NP": 1, "NA": 1, "MaxFrames": 1 if tier == "quick" else 2, "MaxPts": 1 if tier == "quick" else 2}
 
+def io_values_consts(tier):
+    """the second alphabet of the I/O slice: ANALOG:SCALE / OFFSET set by hand, NaN coordinates, a parameter whose last set was refused"""
+    return dict(io_consts(tier), Variant='"values"')
+
 def run_defined(pid, tier, t0):
     """C14: purity / repeatability / bytes = function of the content on every save of the I/O slice, and the definedness sensor:
     the same transitions are replayed in two runs whose heap is filled with different bytes (MALLOC_PERTURB_); every saved file must be
@@ -323,6 +346,11 @@ def run_defined(pid, tier, t0):
     work = vlib.scratch("c14")
     edges = os.path.join(work, "edges.io")
     summ = vlib.dump_edges("MC_IO.tla", "MC_IO.cfg", io_consts(tier), edges)
+    edges2 = os.path.join(work, "edges.io2")
+    summ2 = vlib.dump_edges("MC_IO.tla", "MC_IO.cfg", io_values_consts(tier), edges2)
+    with open(edges, "a") as f: f.write(open(edges2).read())
+    os.remove(edges2)
+    summ = dict(summ, generated=summ["generated"] + summ2["generated"] - 1, distinct=summ["distinct"] + summ2["distinct"])    # ("generated" counts the initial state of each run)
     runs = []
     for perturb in ("165", "90"):
         cases, fails, dig = vlib.replay_file(ez, edges, env={"MALLOC_PERTURB_": perturb, "EZ_EMIT_DIGEST": "1"})
@@ -344,8 +372,10 @@ def run_defined(pid, tier, t0):
 def run_io(pid, tier, t0):
     ez = report_replay.ez = vlib.build("plain")
     res = vlib.replay_slice("MC_IO.tla", "MC_IO.cfg", io_consts(tier), ez, tag="io", timeout=6000)
-    results = [("MC_IO", res)]
+    results = [("MC_IO", res), ("MC_IO/values", vlib.replay_slice("MC_IO.tla", "MC_IO.cfg", io_values_consts(tier), ez, tag="iov", timeout=6000))]
     if pid == "C03":
+        # loaded, modified, saved: the header of the saved file follows the modified content (frame range re-based when the file started at frame 5)
+        results.append(("MC_Modify", vlib.replay_slice("MC_Modify.tla", "MC_Modify.cfg", {"Quick": "TRUE" if tier == "quick" else "FALSE"}, ez, tag="modify", timeout=6000)))
         # objects loaded from foreign layouts (parameter block 3, leading zeros, sparse ids, ...) and saved: the saved file must be ezc3d's own
         # self-consistent layout whatever the loaded file looked like
         results.append(("MC_Format/layout", vlib.replay_slice("MC_Format.tla", "MC_Format.cfg", {"Variant": '"layout"', "Full": "FALSE" if tier == "quick" else "TRUE"}, ez, tag="fmtlayout", timeout=9000)))
@@ -386,11 +416,16 @@ def run_faults(pid, tier, t0):
                ("p1f1", build_ops(1, 0, 0, 1), None),
                ("p3a3x10", build_ops(3, 3, 10, 10), None),
                ("twoblocks", build_ops(2, 1, 2, 3, [big]), None),
-               ("frames40", build_ops(2, 2, 1, 40), None)]
+               ("frames40", build_ops(2, 2, 1, 40), None),
+               # frames larger than a stream buffer (1280 bytes each): whatever is handed to the file in one piece can be cut anywhere
+               ("wide80", build_ops(80, 0, 0, 12), "wide"),
+               ("wide32x10", build_ops(0, 32, 10, 6), "wide")]
     kinds = ["none", "missing_dir", "is_dir", "dev_full", "readonly"]
     ops = []
     for name, build, ks in objects:
         ops.append({"op": "Reset"}); ops += [dict(o, post=0) for o in build]
+        if ks == "wide":
+            ks = ([1535, 1536, 1537, 2047, 2048, 2049, 2559, 2560, 2561, 2815, 2816, 2817, 4095, 4096, 4097, 8191, 8192, 8193, -3, -2, -1] + [-rnd.randrange(1, 9000) for _ in range(60 if tier == "quick" else 1500)])
         if ks is None:
             if tier == "quick":
                 ks = [0, 1, 2, 15, 16, 17, 18, 510, 511, 512, 513, 514, 515, 516, 1023, 1024, 1025, 1535, 1536, 1537, -3, -2, -1] + [rnd.randrange(0, 1024) for _ in range(40)] + [-rnd.randrange(1, 3000) for _ in range(24)]
@@ -573,6 +608,27 @@ def limit_cases(tier):
     add([("int_max", 32767), ("int_min", 32768), ("param_desc", 255)], base([_userparam("G", "P", 2, [32767, -32768], desc="d" * 255)]))
     return cases
 
+def group_id_case(ez, gid):
+    """A file as other software may write it: its last group carries the id gid - 1 (the ids in between are unused, the loader pads the
+    group table), loaded, then one more group is added - it needs the id gid. Ids are one signed byte: 127 is the last one that fits."""
+    ops = build_ops(1, 0, 0, 1, [_userparam("GX", "P", 2, [1])])
+    evs, _ = vlib.run_ops(ez, [dict(o, post=0) for o in ops] + [{"op": "Save", "path": "g.c3d", "bytes": 1, "post": 0}])
+    b = list(evs[-1]["bytes"])
+    s8 = lambda x: x - 256 if x > 127 else x
+    pos = 512 * (b[0] - 1) + 4; recs = []
+    while True:
+        nl = s8(b[pos])
+        if nl == 0: break
+        n = abs(nl); idb = s8(b[pos + 1]); off = b[pos + 2 + n] + 256 * b[pos + 3 + n]
+        recs.append((pos, idb, bytes(b[pos + 2:pos + 2 + n]).decode()))
+        if off == 0: break
+        pos = pos + 2 + n + off
+    old = [-idb for (_, idb, nm) in recs if idb < 0 and nm == "GX"][0]
+    for (q, idb, nm) in recs:
+        if idb == -old: b[q + 1] = (256 - (gid - 1)) & 255
+        elif idb == old: b[q + 1] = gid - 1
+    return [{"op": "PutFile", "path": "gid.c3d", "bytes": b}, {"op": "Load", "o": 1, "path": "gid.c3d"}, _userparam("EXTRA", "Q", 2, [7])]
+
 def params_blocks_case(ez, nblocks):
     """Object whose parameter section takes exactly nblocks blocks, by adding 255-wide string parameters."""
     ops = build_ops(1, 1, 1, 1)
@@ -633,6 +689,8 @@ def run_limits(pid, tier, t0):
         cases.append(([{"limit": "section_bytes", "v": tb}], params_bytes_case(ez, tb)))
     for nb in (254, 255, 256):
         cases.append(([{"limit": "param_blocks", "v": nb}], params_blocks_case(ez, nb)))
+    for gid in (126, 127, 128):      # the id of a group added to a loaded file whose group ids have gaps
+        cases.append(([{"limit": "group_id", "v": gid}], group_id_case(ez, gid)))
     rc, out = vlib.run_tlc("EzLimits.tla", "EzLimits.cfg", timeout=300, workers=1)
     msum = vlib.tlc_summary(out)
     if vlib.tlc_errors(out) or msum is None: raise Infra("EzLimits model check failed: %s" % out[-1500:])
@@ -697,9 +755,11 @@ def run_builds(pid, tier, t0):
     p0 = os.path.join(work, "edges.columns")
     s0 = vlib.dump_edges("MC_Frames.tla", "MC_Frames.cfg", frames_consts("quick"), p0)
     os.environ["SAMPLEK"] = "1"
-    plan = [("MC_IO.tla", "MC_IO.cfg", io_consts("quick"), "io"), ("MC_Format.tla", "MC_Format.cfg", {"Variant": '"patterns"'}, "patterns")]
+    # (layout: files of other writers - padded one-dimensional texts, byte-typed and 3-D parameters, events - loaded and saved again)
+    plan = [("MC_IO.tla", "MC_IO.cfg", io_consts("quick"), "io"), ("MC_Format.tla", "MC_Format.cfg", {"Variant": '"patterns"'}, "patterns"),
+            ("MC_Format.tla", "MC_Format.cfg", {"Variant": '"layout"', "Full": "FALSE" if tier == "quick" else "TRUE"}, "layout")]
     if tier != "quick":
-        plan += [("MC_Format.tla", "MC_Format.cfg", {"Variant": '"layout"', "Full": "FALSE" if tier == "quick" else "TRUE"}, "layout"), ("MC_Params.tla", "MC_Params.cfg", {"MaxVals": 2, "Deep": "FALSE"}, "params"),
+        plan += [("MC_IO.tla", "MC_IO.cfg", io_values_consts("quick"), "iov"), ("MC_Params.tla", "MC_Params.cfg", {"MaxVals": 2, "Deep": "FALSE"}, "params"),
                  ("MC_Lookup.tla", "MC_Lookup.cfg", {"NPts": 2, "MaxFrames": 1}, "lookup")]
     states = s0["distinct"]; transitions = sum(1 for _ in open(p0))
     edge_files.append(("columns", p0))
@@ -724,7 +784,7 @@ def run_builds(pid, tier, t0):
         ops += [{"op": "Reset"}] + [dict(o, post=0) for o in params_bytes_case(ez, tb)] + [{"op": "Save", "o": 1, "path": "cap.c3d", "post": 0}, {"op": "Load", "o": 2, "path": "cap.c3d", "post": 0}]
     ops += [{"op": "Reset"}, {"op": "New", "o": 1}]
     for vf in ("Vicon", "Qualisys", "Optotrak"):
-        ops += [{"op": "Load", "o": 3, "path": "/repo/test/c3dFiles/%s.c3d" % vf, "post": 0}, {"op": "Print", "o": 3, "post": 0},
+        ops += [{"op": "Load", "o": 3, "path": vlib.REPO + "/test/c3dFiles/%s.c3d" % vf, "post": 0}, {"op": "Print", "o": 3, "post": 0},
                 {"op": "Save", "o": 3, "path": "v.c3d", "post": 0}, {"op": "Load", "o": 4, "path": "v.c3d", "post": 0}, {"op": "Print", "o": 4, "post": 0},
                 {"op": "Get", "o": 4, "q": "frame", "f": 0, "post": 0}, {"op": "Get", "o": 4, "q": "group", "g": 0, "post": 0}]
     script = os.path.join(work, "corpus.ndjson"); open(script, "w").write("\n".join(json.dumps(o) for o in ops) + "\n")
@@ -824,6 +884,33 @@ def run_threads(pid, tier, t0):
         j = json.loads(l)
         if j.get("summary"): summary = j
         else: fails.append(j)
+    # cold starts: in a fresh process the very first objects are constructed by threads that start together (no scheduled leg, nothing
+    # built by the main thread beforehand) - whatever the library initialises lazily on first use is initialised under contention
+    cold = 10 if tier == "quick" else 60
+    cinp = os.path.join(work, "cold.in")
+    with open(cinp, "w") as f:
+        # (a small pool: parsing dominates a short process) - mostly saves of text parameters with cells of unequal length (buffers that grow with
+        # the content are first sized here), a few short construction sequences
+        def text_save(c_):
+            ops_ = c_["path"] + [c_["op"]]
+            return any(o.get("op") == "Reload" for o in ops_) and any(o.get("op") == "SetParam" and any(s_.get("t") == -1 and len(s_.get("v", [])) > 1 for s_ in o["p"]["sets"]) for o in ops_)
+        texty = [c_ for c_ in cases if text_save(c_)]
+        rnd.shuffle(texty)
+        for c_ in texty[:30] + three[:6] + two[:4]: f.write(json.dumps(c_) + "\n")
+    cold_runs = 0
+    for k in range(cold):
+        rc_ = subprocess.run("%s threads --dir %s/c%d --threads %d --rounds 2 --seed %d < %s" % (ez, work, k, 2 + (k % 5) * 2 if k % 5 else 8, vlib.seed() + 7919 * (k + 1), cinp), shell=True,
+                             stdout=subprocess.PIPE, stderr=subprocess.PIPE, text=True, env=env, timeout=600)
+        csum = None
+        for l in rc_.stdout.splitlines():
+            if not l.strip(): continue
+            j = json.loads(l)
+            if j.get("summary"): csum = j
+            else: fails.append(j)
+        if csum: cold_runs += csum["cases"]
+        if rc_.returncode != 0 or csum is None:
+            r = rc_; summary = None
+            break
     nviol = 0
     if r.returncode != 0 or summary is None:
         kind = "data race reported by ThreadSanitizer" if r.returncode == 66 or "ThreadSanitizer" in r.stderr else "abnormal termination (exit %s)" % r.returncode
@@ -842,10 +929,12 @@ def run_threads(pid, tier, t0):
     cov = {"evaluations": runs, "distinct_nontrivial": nsched + rounds,
            "rule": "one evaluation = one thread replaying a path of the MC_IO slice (own object, own directory) while the other threads do the same; "
                    "distinct schedules = %d TLC-enumerated call-granularity interleavings (EzThreads.tla: 2 threads x 3 calls, 3 threads x 2 calls%s) forced by token passing "
-                   "+ %d free-running rounds of 8 threads under ThreadSanitizer (sampled OS schedules); every thread's results are compared with the specification's" %
-                   (nsched, "" if tier == "quick" else ", 2 x 4, 3 x 3", rounds),
+                   "+ %d free-running rounds of 8 threads under ThreadSanitizer (sampled OS schedules) + %d cold-start processes (2..8 threads construct the "
+                   "process's first objects together); every thread's results are compared with the specification's" %
+                   (nsched, "" if tier == "quick" else ", 2 x 4, 3 x 3", rounds, cold),
            "samples": [{"order": o_[2][0], "threads": o_[0]} for o_ in orders][:2] + [{"path_ops": [o.get("op") for o in pool[0]["path"]] + [pool[0]["op"].get("op")]}],
            "scheduled_interleavings": nsched, "free_rounds": rounds, "threads": 8, "thread_runs": runs, "mismatches": len(fails),
+           "cold_start_processes": cold, "cold_start_thread_runs": cold_runs,
            "spec_states": summ["distinct"], "spec_transitions": summ["generated"] - 1}
     cov["known_findings_observed"] = known_findings(pid, ez)
     vlib.write_evidence(pid, tier, "exploration", cov, time.time() - t0, nviol,
@@ -865,11 +954,15 @@ def run_memsafe(pid, tier, t0):
     # (module, cfg, constants, tag, 1/k of the transitions replayed in quick): every replayed case executes its whole path from Init
     plan = [("MC_Shape.tla", "MC_Shape.cfg", shape_consts("quick"), "shape", 16),
             ("MC_IO.tla", "MC_IO.cfg", io_consts("quick"), "io", 2),
+            ("MC_IO.tla", "MC_IO.cfg", io_values_consts("quick"), "iov", 2),
             ("MC_Format.tla", "MC_Format.cfg", {"Variant": '"layout"', "Full": "FALSE"}, "layout", 2),
             ("MC_Params.tla", "MC_Params.cfg", {"MaxVals": 2, "Deep": "FALSE"}, "params", 8),
             ("MC_Lookup.tla", "MC_Lookup.cfg", {"NPts": 2, "MaxFrames": 1}, "lookup", 8),
             ("MC_Frames.tla", "MC_Frames.cfg", frames_consts("quick"), "frames", 32),
-            ("MC_Frames.tla", "MC_Frames.cfg", frames_configs("quick")[3][1], "alias", 16)]
+            ("MC_Frames.tla", "MC_Frames.cfg", frames_configs("quick")[3][1], "alias", 16),
+            ("MC_Frames.tla", "MC_Frames.cfg", frames_configs("quick")[4][1], "shared", 4),
+            ("MC_Modify.tla", "MC_Modify.cfg", {"Quick": "TRUE"}, "modify", 2),
+            ("MC_Rates.tla", "MC_Rates.cfg", {"NP": 1, "NA": 1, "Quick": "TRUE", "MaxFrames": 2, "MaxPts": 1, "MaxCh": 1, "IdxSlack": 1}, "rates", 2)]
     if not q:
         plan += [("MC_IO.tla", "MC_IO.cfg", io_consts("thorough"), "io2", 1), ("MC_Format.tla", "MC_Format.cfg", {"Variant": '"patterns"', "Full": "FALSE"}, "patterns", 1)]
     stderr = ""
